@@ -89,7 +89,7 @@ def sections(t, pre=()):
 def gen_env(rng, t):
     env = {}
     for p, old in cfglib.leaves(t):
-        if isinstance(old, list) or rng.random() > 0.3:
+        if isinstance(old, list) or rng.random() > 0.3 or (in_mods_only(p) and rng.random() < 0.9):
             continue
         env["_".join(p).upper()] = rng.choice(["0", "1", "7", "42"]) if p[-1] != "c" else rng.choice(["0", "1", "", "yes"])
     if rng.random() < 0.3:
@@ -407,7 +407,7 @@ def signature(f):
         w = cover[-1]
         deleted_before = any(e[0] == "del" and e[1] == w[0][:len(e[1])] for e in ref.journal[:w[2]])
         s = "C06-section-rewrite-resurrects" if (deleted_before and not w[1]) else "C06-section-write-merges"
-        sig = s if sig in (None, s) else "other"
+        sig = s if sig in (None, s) else "+".join(sorted(set(sig.split("+")) | {s}))
     return sig
 
 
@@ -415,7 +415,8 @@ def match_known(entry, failure):
     case = failure["case"]
     if case.get("kind") != "hist" or not entry.get("match"):
         return False
-    return classify(case["ops"]) == entry["match"]
+    sig = classify(case["ops"])
+    return sig is not None and all(x in KNOWN_SIGS for x in sig.split("+")) and entry["match"] in sig.split("+")
 
 
 # ------------------------------------------------------------------ replay / run
@@ -482,7 +483,7 @@ def run(ctx):
             out.hist["oracle_" + sig] += 1
             # failures carrying a known-finding signature are sampled (run.py re-checks each one against
             # known_findings.json); every other failure is always reported
-            if sig not in KNOWN_SIGS or out.hist["oracle_" + sig] <= 12:
+            if not all(x in KNOWN_SIGS for x in sig.split("+")) or out.hist["oracle_" + sig] <= 12:
                 out.fail(f_case, f["why"])
         ran.append(case)
         lines.append(cfglib.line(ops2))
@@ -507,15 +508,20 @@ def run(ctx):
         if why:
             out.fail(c, why)
     out.extra["table_obligations"] = 0
+    nh = max(1, sum(v for k, v in out.hist.items() if k.startswith("hist_") and k != "hist_with_reload_and_mutation"))
+    out.extra["share_of_histories_within_partial_hypothesis"] = round(
+        1 - sum(v for k, v in out.hist.items() if k.startswith("oracle_C06")) / nh, 3)
     return out
 
 
-LEVEL_TEXT = ("Lean 4 proofs about the Config bookkeeping model: path-function characterisations of merge, obliterate, "
-              "the _modify/_remove/excise walks; one-step theorems set_then_get, del_then_absent, "
-              "untouched_paths_keep_merged_value for every base; history_refines_dict_partial (every history of writes and "
-              "deletions, replayed over ANY later merge of the lower levels, reads like the nested dict that received them, "
-              "for leaf writes and dict writes at keys no lower level has) and no_internal_error; the model is tied to "
-              "invoke.config on every run by a differential correspondence check over exhaustive short and random long "
-              "histories, and a plain nested Python dict driven by the same operations is the always-on oracle")
+LEVEL_TEXT = ("Lean 4 proofs about the Config bookkeeping model (view = obliterate(merge(levels + modifications), deletions)): "
+              "one-step theorems set_then_get, del_then_absent, untouched_paths_keep_merged_value for EVERY base (= across any "
+              "reload), navigated_write_is_valid; history_refines_dict_partial / reachable_reads_like_dict (for every history "
+              "of writes and deletions through navigated proxies interleaved with reloads, the configuration reads like the "
+              "plain nested dict 'current merge + the same edits'; side condition: dict-valued writes go to keys that are "
+              "sections in no lower level - findings #17/#18 have counterexample theorems), no_internal_error and "
+              "navigated_write_succeeds (type consistency is an invariant; merge, obliterate, excise never raise); the model "
+              "is tied to invoke.config on every run by a differential correspondence check over exhaustive short and random "
+              "long operation histories, and a plain nested Python dict driven by the same operations is the always-on oracle")
 TECHNIQUE = ("Lean 4 theorems over all histories (simulation by path-function semantics, base-independent step lemmas) + "
              "model/implementation correspondence on operation histories + dict-twin oracle")
